@@ -8,6 +8,7 @@ CONSTANTS
   MaxArgs = 1000
   Commands = {"check", "echo", "tokenize"}
   Encodings = {"utf8"}
+  Verbosities = {0}
   Emit = FALSE
 INVARIANTS TraceInv Verdict
 CHECK_DEADLOCK FALSE
